@@ -2,12 +2,16 @@
 C14 - loading a CSV file reproduces the saved table under every header mode.
 
 Lean: lean/N0Verif/Model/CsvFile.lean (file layer, option checks, header decision, record loop,
-      save_csv), Proofs/CsvFile.lean, Props/C14.lean
+      save_csv), Proofs/CsvFile.lean, Props/C14.lean;
+      lean/N0Verif/Model/CsvReader.lean (csv.reader state machine of _csv.c, csv.DictReader +
+      load_native_csv, load_simple_csv), Proofs/CsvReader.lean
 B streams: csvfile.load/table (tables x option product x EOL x BOM x mode), csvfile.load/soup (raw
       content), csvfile.textlines / csvfile.binlines (file layer vs real open()/readline()),
-      csvfile.save (save_csv bytes on disk)
+      csvfile.save (save_csv bytes on disk), csvr.reader (csv.reader on written lines, soup, several
+      lines), csvr.nllines (newline=''), csvr.native (load_native_csv), csvr.simple (load_simple_csv)
 C evaluators: roundtrip (one transcription per header mode), refused, empty_file, csv_module
-      (csv.reader / load_native_csv / load_simple_csv agreement)
+      (csv.reader / load_native_csv / load_simple_csv agreement), reader_agrees, reader_vs_parse,
+      native_agrees, simple_agrees, simple_soup, strip_field, strip_line_clean, keep_empty_lines
 """
 import atexit
 import csv
@@ -21,7 +25,8 @@ from harness.core import enc_str, enc_strs
 MANIFEST = dict(
     category="proof",
     technique="Lean 4 theorems over a hand-written model of load_csv/save_csv (file layer, option checks, header "
-    "decision, record loop) resting on the C13 line round trip + differential correspondence with the implementation on real files",
+    "decision, record loop) resting on the C13 line round trip, and over models of csv.reader (the _csv.c state machine), "
+    "csv.DictReader/load_native_csv and load_simple_csv + differential correspondence with the implementation on real files",
     text="Lean theorems (unbounded in table size and cell length; cells without CR/LF/U+FEFF; delimiter a single character "
     "other than quote/CR/LF/U+FEFF; header names unique): C14_header_from_file (header_is_mandatory=True, legacy "
     "contains_header=True, first-column name, list of mandatory names), C14_header_given_both, C14_header_given_only, "
@@ -32,12 +37,30 @@ MANIFEST = dict(
     "C14_binary_encoded (for every ASCII-transparent byte encoder the encoded file is the file of the encoded table, so binary "
     "mode yields the same table as encoded bytes), all of the form "
     "loadCsv opts (fileOf bom d eol header rows) = expected records, with blank lines (empty rows) anywhere. "
-    "The model is compared with list(load_csv(...)) on real files for the whole option product (including every "
-    "SyntaxError/ReferenceError/KeyError/EOFError/ValueError branch), the file layer with open()/readline(), "
-    "saveCsv with the bytes save_csv writes; the statement itself is executed on the implementation per header mode. "
-    "Agreement with csv.reader / load_native_csv / load_simple_csv is differential only.",
-    note="UTF-8 codec, universal-newline layer, tell/seek of text files and csv.writer are modelled, not verified "
-    "(each validated by its own stream); binary mode takes names as bytes. Model follows the code with fix patches C14-a..e.",
+    "Agreement with the standard csv reader is proved, not sampled: C14_agrees_with_csv_reader / _writer (on every line the "
+    "library generator (row != ['']) or csv.writer produces from a row without line breaks, the model of csv.reader "
+    "(strict, excel dialect, given delimiter) and parse_complex_csv_line both return the row), C14_reader_vs_parse (on an "
+    "arbitrary physical line the two differ exactly when the last quoted field is left open - library accepts, csv.reader "
+    "raises csv.Error; C14_reader_open_quote_closed: with the closing quote added csv.reader returns the library's fields - and in the exception class, ValueError vs csv.Error), C14_reader_blank_line ([] vs ['']), "
+    "counter-examples C14_reader_open_quote_cex / C14_reader_lone_empty_cex, C14_reader_reads_saved_file (csv.reader over the "
+    "saved file returns header + rows). load_native_csv (csv.DictReader): C14_native_header_given_both, C14_native_names_only, "
+    "C14_native_header_from_file (column_names=None, after fix C14-f also with the default contains_header=True), "
+    "C14_native_missing_refused, C14_native_record (named part = load_csv's record, surplus cells under the key None) - each "
+    "gives the closed form and equality with load_csv's records in the matching mode. load_simple_csv: C14_simple_no_quote "
+    "(for EVERY file without a quote character and EVERY option record in text mode load_simple_csv = load_csv), "
+    "C14_simple_saved_table (saved tables whose cells contain neither delimiter nor quote), C14_simple_quote_cex. Closed forms: "
+    "C14_strip_field / _positional (records = the table of str.strip()-ed names and cells; C14_strip_padded: strip removes exactly "
+    "the surrounding blanks), C14_strip_line_clean / C14_strip_line_clean_cells (strip_line=True is the identity on tables whose written lines have no outer "
+    "blank; C14_strip_line_cex shows it is not strip_field), C14_keep_empty_lines / _positional (skip_empty_lines=False: every "
+    "row after the header yields a record, a blank line the record {first name: '', others: None}). "
+    "The models are compared with the real code on real files for the whole option product (including every "
+    "SyntaxError/ReferenceError/KeyError/EOFError/ValueError/csv.Error/TypeError branch): list(load_csv(...)), the file layer "
+    "with open()/readline() (also newline=''), the bytes save_csv writes, csv.reader on written lines and soup (one line, "
+    "several lines, records spanning lines), load_native_csv, load_simple_csv; each statement is also executed on the implementation.",
+    note="UTF-8 codec, universal-newline layer, tell/seek of text files, csv.writer and csv.reader (CPython _csv.c, "
+    "field_size_limit not modelled) / csv.DictReader are modelled, not verified "
+    "(each validated by its own stream); binary mode takes names as bytes. Model follows the code with fix patches C14-a..f. "
+    "strip_line on lines WITH outer blanks has no closed form (it depends on the quoting of the outer cells); covered by B.",
     design_ref="5/C14",
 )
 
@@ -491,6 +514,28 @@ def check_eol_bom_invariant(c):
 EVALS = {"roundtrip": check_roundtrip, "csv_module": check_csv_module, "eol_bom_invariant": check_eol_bom_invariant}
 
 
+def _late(name):
+    """evaluators defined further down (reader / native / simple / strip section)"""
+    return lambda c: globals()[name](c)
+
+
+def _table_case_valid(c):
+    return table_valid(c) and c.get("via") in ("save_csv", "writer") and isinstance(c.get("bin"), bool) and isinstance(c.get("bom"), bool)
+
+
+# evaluator -> (property function, predicate "the case is inside the quantifier of the statement")
+EVALS2 = {
+    "reader_agrees": (_late("check_reader_agrees"), _late("row_valid")),
+    "reader_vs_parse": (_late("check_reader_vs_parse"), _late("body_valid")),
+    "native_agrees": (_late("check_native_agrees"), _late("native_valid")),
+    "simple_agrees": (_late("check_simple_agrees"), lambda c: _table_case_valid(c) and simple_table_ok(c)),
+    "simple_soup": (_late("check_simple_soup"), lambda c: isinstance(c.get("file"), str) and '"' not in c["file"] and c.get("bin") is False and c.get("d") in DELIMS),
+    "strip_field": (_late("check_strip_field"), _late("strip_valid")),
+    "keep_empty_lines": (_late("check_keep_empty_lines"), _late("strip_valid")),
+    "strip_line_clean": (_late("check_strip_line_clean"), lambda c: _table_case_valid(c) and outer_clean(c)),
+}
+
+
 # ---------------------------------------------------------------------------
 # known-finding classifiers (all five are proposed as fixes; they become `findings`
 # classes only if a patch is not taken)
@@ -532,7 +577,17 @@ def cls_empty_missing_name(c, detail=None):
     return "" in names
 
 
+def cls_native_default(c, detail=None):
+    """C14-f: load_native_csv with column_names=None and a truthy contains_header (the default)"""
+    if c.get("nmode") == "default":
+        return True
+    if "nmode" in c or "mode" in c or "se" in c or not isinstance(c.get("ch"), str):
+        return False
+    return c.get("cn") is None and (c["ch"] == "D" or bool(CH_VALUES.get(c["ch"])))
+
+
 CLASSIFIERS = {
+    "cls_native_default": cls_native_default,
     "cls_legacy_true": cls_legacy_true,
     "cls_xpath_name": cls_xpath_name,
     "cls_empty_rows": cls_empty_rows,
@@ -553,6 +608,8 @@ def known_class(c, detail=None):
 def witness_fails(finding):
     core.import_repo()
     w = finding["witness"]
+    if "nmode" in w:
+        return check_native_agrees(w) is not None
     if "mode" in w:
         return check_roundtrip(w) is not None
     if "file" in w:
@@ -561,6 +618,9 @@ def witness_fails(finding):
 
 
 def shrink_failure(evaluator, case):
+    if evaluator in EVALS2:
+        fn2, valid = EVALS2[evaluator]
+        return core.shrink(case, lambda c: bool(valid(c)) and fn2(c) is not None)
     fn = EVALS.get(evaluator)
     if fn is None:
         return case
@@ -569,6 +629,19 @@ def shrink_failure(evaluator, case):
 
 def replay(rp):
     c = rp["case"]
+    if rp.get("evaluator") in EVALS2:
+        bad = EVALS2[rp["evaluator"]][0](c)
+        print("case:", c)
+        print("result:", "property holds" if bad is None else bad)
+        return 1 if bad else 0
+    if rp.get("correspondence_stream", "").startswith("csvr."):
+        stream = rp["correspondence_stream"]
+        mo = core.run_driver([rp["line"]])[0]
+        io_ = {"csvr.reader": reader_impl_of, "csvr.nllines": nllines_impl, "csvr.native": native_impl_of, "csvr.simple": simple_impl_of}[stream](c)
+        print("correspondence replay:", c)
+        print("model:", mo)
+        print("impl :", io_)
+        return 1 if mo != io_ else 0
     if "mode" in c:
         fn = EVALS.get(rp.get("evaluator", "roundtrip"), check_roundtrip)
         bad = fn(c)
@@ -637,6 +710,546 @@ def save_line_of(c):
     for r in c["rows"]:
         toks += [str(len(r))] + [enc_str(x) for x in r]
     return " ".join(toks)
+
+
+# ---------------------------------------------------------------------------
+# csv.reader / load_native_csv / load_simple_csv (models in Model/CsvReader.lean)
+# ---------------------------------------------------------------------------
+import re as _re
+
+_NL_SPLIT = _re.compile(r"[^\r\n]*(?:\r\n|\r|\n)|[^\r\n]+")
+
+
+def nl_split(text):
+    """the lines of a text file opened with newline='' (\n, \r\n, lone \r end a line and are kept)"""
+    return _NL_SPLIT.findall(text)
+
+
+def enc_counted(xs):
+    return ("%d %s" % (len(xs), enc_strs(xs))).rstrip()
+
+
+def reader_line_of(c):
+    return "csvr.reader %s %s" % (enc_str(c["d"]), enc_counted(c["lines"]))
+
+
+def reader_impl_of(c):
+    """the records csv.reader yields before it stops, and the class of what stops it"""
+    recs = []
+    status = "ok"
+    try:
+        for r in csv.reader(iter(c["lines"]), delimiter=c["d"], strict=True):
+            recs.append(r)
+    except Exception as e:  # noqa
+        status = "err " + core.exc_class(e)
+    return " ".join([status, str(len(recs))] + [enc_counted(r) for r in recs])
+
+
+def nllines_impl(c):
+    p = write_file(c["file"])
+    out = []
+    with open(p, "rt", encoding="utf-8-sig", newline="") as f:
+        for line in f:
+            out.append(line)
+    return ("ok %d %s" % (len(out), enc_strs(out))).rstrip()
+
+
+CH_VALUES = {"T": True, "F": False, "N": None, "1": 1, "0": 0, "S": "a", "E": ""}
+
+
+def native_kwargs(c):
+    k = {"delimiter": c["d"]}
+    cn = c.get("cn")
+    if cn is not None:
+        if isinstance(cn, str):
+            k["column_names"] = OTHER[cn]
+        else:
+            k["column_names"] = tuple(cn[1]) if cn[0] == "T" else list(cn[1])
+    if c.get("ch", "D") != "D":
+        k["contains_header"] = CH_VALUES[c["ch"]]
+    if not c.get("re", True):
+        k["raise_exception"] = False
+    return k
+
+
+def native_line_of(c):
+    toks = ["csvr.native", enc_str(c["d"])]
+    cn = c.get("cn")
+    if cn is None:
+        toks.append("N")
+    elif isinstance(cn, str):
+        toks.append("O")
+    else:
+        toks += ["L", str(len(cn[1]))] + [enc_str(x) for x in cn[1]]
+    ch = c.get("ch", "D")
+    toks.append(tb(True if ch == "D" else bool(CH_VALUES[ch])))
+    toks.append(tb(c.get("re", True)))
+    toks.append(enc_str(c["file"]))
+    return " ".join(toks)
+
+
+def canon_native(rows):
+    out = ["ok %d" % len(rows)]
+    for r in rows:
+        named = [(k, v) for k, v in r.items() if k is not None]
+        out.append("R%d" % len(named))
+        seen_rest = False
+        for k, v in r.items():
+            if k is None:
+                seen_rest = True
+                continue
+            if seen_rest:
+                raise ValueError("restkey is not the last key")
+            out.append(canon_key(k))
+            out.append("N" if v is None else "s" + enc_str(v))
+        out.append("r" + enc_counted(r[None]) if None in r else "-")
+    return " ".join(out)
+
+
+def native_impl_of(c):
+    load_native_csv = impl()[2]
+    p = write_file(c["file"])
+    r = core.call(lambda: list(load_native_csv(p, **native_kwargs(c))))
+    if r[0] != "ok":
+        return "err " + r[1]
+    return canon_native(r[1])
+
+
+def simple_kwargs(c):
+    k = kwargs_of(dict(c, ru=False))
+    return k
+
+
+def simple_line_of(c):
+    toks = load_line_of(dict(c, ru=False)).split(" ")
+    assert toks[0] == "csvfile.load"
+    toks[0] = "csvr.simple"
+    # drop the return_unknown_fields flag: load_simple_csv has no such argument
+    # layout of the tail: mand se sl sf rl ru re file
+    del toks[-3]
+    return " ".join(toks)
+
+
+def simple_impl_of(c):
+    load_simple_csv = impl()[3]
+    p = write_file(c["file"])
+    r = core.call(lambda: list(load_simple_csv(p, **simple_kwargs(c))))
+    if r[0] != "ok":
+        return "err " + r[1]
+    return canon_items(r[1], c.get("rl", False))
+
+
+# ---- C: csv.reader and parse_complex_csv_line agree on written lines ---------------------------
+def lib_line(row, d, eol):
+    from n0struct import generate_complex_csv_row
+
+    return generate_complex_csv_row(row, d, eol)
+
+
+def writer_line(row, d, term):
+    import io
+
+    buf = io.StringIO()
+    csv.writer(buf, delimiter=d, lineterminator=term).writerow(row)
+    return buf.getvalue()
+
+
+def reader_one(line, d):
+    return core.call(lambda: list(csv.reader([line], delimiter=d, strict=True)))
+
+
+def row_valid(c):
+    try:
+        row = c["row"]
+        return (
+            c["d"] in DELIMS and c["eol"] in ("", "\n", "\r\n") and c["via"] in ("gen", "writer") and isinstance(row, list) and len(row) > 0
+            and all(isinstance(f, str) and "\n" not in f and "\r" not in f for f in row)
+            and not (c["via"] == "gen" and row == [""])
+            and not (c["via"] == "writer" and c["eol"] == "")
+        )
+    except Exception:
+        return False
+
+
+def check_reader_agrees(c):
+    """C14_agrees_with_csv_reader: on a line written from a row (library generator: row != [''];
+    csv.writer: any non-empty row) csv.reader and parse_complex_csv_line both return the row"""
+    from n0struct import parse_complex_csv_line
+
+    d, row, eol = c["d"], c["row"], c["eol"]
+    line = lib_line(row, d, eol) if c["via"] == "gen" else writer_line(row, d, eol)
+    a = reader_one(line, d)
+    b = core.call(parse_complex_csv_line, line, d)
+    if a != ("ok", [list(row)]) or b != ("ok", list(row)):
+        return {"line": line, "csv.reader": repr(a)[:200], "parse_complex_csv_line": repr(b)[:200], "want": repr(row)[:200]}
+    return None
+
+
+def body_valid(c):
+    try:
+        return c["d"] in DELIMS and c["eol"] in ("", "\n", "\r\n", "\r") and isinstance(c["body"], str) and "\n" not in c["body"] and "\r" not in c["body"]
+    except Exception:
+        return False
+
+
+def check_reader_vs_parse(c):
+    """C14_reader_vs_parse: on an arbitrary physical line (no CR/LF inside) the two parsers differ
+    only (i) on a blank line ([] vs ['']), (ii) on an unterminated quoted field (csv.Error vs accepted;
+    closing the quote makes them agree), (iii) in the exception class (csv.Error vs ValueError)"""
+    from n0struct import parse_complex_csv_line
+
+    d, body, eol = c["d"], c["body"], c["eol"]
+    a = reader_one(body + eol, d)
+    b = core.call(parse_complex_csv_line, body + eol, d)
+    bad = {"line": body + eol, "csv.reader": repr(a)[:200], "parse_complex_csv_line": repr(b)[:200]}
+    if body == "":
+        return None if (a == ("ok", [[]]) and b == ("ok", [""])) else dict(bad, case="blank")
+    if b[0] == "err":
+        return None if (b[1] == "ValueError" and a == ("err", "Error")) else dict(bad, case="parser refuses")
+    if a[0] == "ok":
+        return None if a[1] == [b[1]] else dict(bad, case="both accept")
+    # reader refuses, parser accepts: must be an unterminated quoted field
+    a2 = reader_one(body + '"' + eol, d)
+    b2 = core.call(parse_complex_csv_line, body + '"' + eol, d)
+    if a[1] == "Error" and b2 == b and a2 == ("ok", [b[1]]):
+        return None
+    return dict(bad, case="reader refuses", closed=repr((a2, b2))[:200])
+
+
+# ---- C: load_native_csv / load_simple_csv yield the records of load_csv -------------------------
+NATIVE_MODES = ["both", "names", "file", "default"]
+
+
+def native_valid(c):
+    return table_valid(dict(c, mode="both", bin=False)) and c.get("nmode") in NATIVE_MODES and c.get("via") in ("save_csv", "writer")
+
+
+def check_native_agrees(c):
+    """C14_native_*: on a saved table, load_native_csv yields the records of load_csv (surplus cells
+    under the key None apart) and both are the table"""
+    load_csv, save_csv, load_native_csv, load_simple_csv = impl()
+    d, hdr, rows, m = c["d"], c["hdr"], c["rows"], c["nmode"]
+    data = [r for r in rows if r]
+    cc = dict(c, bin=False)
+    if m == "both":
+        p = make_table_file(cc, True)
+        nk = dict(column_names=list(hdr), contains_header=True)
+        lk = dict(column_names=list(hdr), header_is_mandatory=True)
+    elif m == "names":
+        first = first_data_row(rows)
+        if first is None or all(n in first for n in hdr):
+            return None
+        p = make_table_file(cc, False)
+        nk = dict(column_names=list(hdr), contains_header=False)
+        lk = dict(column_names=list(hdr))
+    elif m == "file":
+        p = make_table_file(cc, True)
+        nk = dict(contains_header=False)
+        lk = dict(header_is_mandatory=True)
+    else:
+        p = make_table_file(cc, True)
+        nk = dict()
+        lk = dict(header_is_mandatory=True)
+    a = core.call(lambda: [dict(x) for x in load_native_csv(p, delimiter=d, **nk)])
+    b = core.call(lambda: [dict(x) for x in load_csv(p, delimiter=d, **lk)])
+    want = [dict(rec_of(hdr, r)) for r in data]
+    bad = {"native": repr(a)[:300], "load_csv": repr(b)[:300], "want": repr(want)[:300], "native_kwargs": repr(nk), "file": repr(open(p, "rb").read())[:300]}
+    if a[0] != "ok" or b[0] != "ok":
+        return bad
+    for x, r in zip(a[1], data):
+        rest = x.pop(None, None)
+        if rest != (r[len(hdr):] or None):
+            return dict(bad, restkey=repr(rest))
+    if a[1] != want or b[1] != want or [list(x) for x in a[1]] != [list(x) for x in want]:
+        return bad
+    return None
+
+
+def simple_table_ok(c):
+    d = c["d"]
+    allrows = [c["hdr"]] + c["rows"]
+    return all(d not in f and '"' not in f for row in allrows for f in row) and not any(row == [""] for row in allrows)
+
+
+def check_simple_agrees(c):
+    """C14_simple_*: on a file without a quote character (here: a saved table whose cells need no
+    quoting) load_simple_csv == load_csv for the same options"""
+    load_csv, save_csv, load_native_csv, load_simple_csv = impl()
+    if not simple_table_ok(c) or c["bin"]:
+        return None
+    bm = build_mode(c)
+    if bm is None:
+        return None
+    with_header, k, _exp = bm
+    p = make_table_file(c, with_header)
+    kw = dict(k, delimiter=c["d"])
+    for key, arg in (("sl", "strip_line"), ("sf", "strip_field"), ("se", "skip_empty_lines")):
+        if key in c:
+            kw[arg] = c[key]
+    a = core.call(lambda: [list(x.items()) for x in load_simple_csv(p, **kw)])
+    b = core.call(lambda: [list(x.items()) for x in load_csv(p, **kw)])
+    if a != b:
+        return {"simple": repr(a)[:300], "load_csv": repr(b)[:300], "kwargs": repr(kw), "file": repr(open(p, "rb").read())[:300]}
+    return None
+
+
+def check_simple_soup(c):
+    """C14_simple_no_quote: any file content without a quote character, any options (text mode)"""
+    load_csv, save_csv, load_native_csv, load_simple_csv = impl()
+    if '"' in c["file"] or c["bin"]:
+        return None
+    p = write_file(c["file"])
+    kw = kwargs_of(dict(c, ru=False))
+    a = core.call(lambda: [list(x.items()) if not c.get("rl") else (list(x[0].items()), x[1]) for x in load_simple_csv(p, **kw)])
+    b = core.call(lambda: [list(x.items()) if not c.get("rl") else (list(x[0].items()), x[1]) for x in load_csv(p, **kw)])
+    if a != b:
+        return {"simple": repr(a)[:300], "load_csv": repr(b)[:300], "kwargs": repr(kw), "file": repr(c["file"])[:300]}
+    return None
+
+
+# ---- C: closed forms for strip_field / strip_line / skip_empty_lines=False ----------------------
+BLANKS = [" ", "\t", "\xa0", " ", "\x0b"]
+
+
+def strip_valid(c):
+    try:
+        if not table_valid(dict(c, mode="file:mand", bin=False)) or c.get("via") not in ("save_csv", "writer") or c.get("smode") not in ("file", "pos"):
+            return False
+        return isinstance(c["pads"], list) and all(isinstance(p, list) and len(p) == 2 and all(isinstance(x, str) and all(ch in BLANKS for ch in x) for x in p) for p in c["pads"])
+    except Exception:
+        return False
+
+
+def padded_table(c):
+    """the table with blanks put around each cell (pads are consumed cyclically)"""
+    pads = c["pads"] or [["", ""]]
+    i = [0]
+
+    def pad(x):
+        l, r = pads[i[0] % len(pads)]
+        i[0] += 1
+        return l + x + r
+
+    hdr = [pad(x) for x in c["hdr"]]
+    rows = [[pad(x) for x in r] for r in c["rows"]]
+    return hdr, rows
+
+
+def check_strip_field(c):
+    """C14_strip_field: strip_field=True on a table whose written cells carry surrounding blanks
+    yields the records of the table of stripped cells (names stripped too)"""
+    load_csv = impl()[0]
+    d = c["d"]
+    hdr, rows = padded_table(c)
+    if d in "".join(BLANKS) and False:
+        return None
+    shdr = [x.strip() for x in hdr]
+    srows = [[x.strip() for x in r] for r in rows if r]
+    if len(set(shdr)) != len(shdr):
+        return None
+    cc = dict(c, hdr=hdr, rows=rows, bin=False)
+    if c["smode"] == "file":
+        p = make_table_file(cc, True)
+        r = core.call(lambda: [list(x.items()) for x in load_csv(p, delimiter=d, header_is_mandatory=True, strip_field=True)])
+        want = [rec_of(shdr, row) for row in srows]
+    else:
+        if not srows:
+            return None
+        p = make_table_file(cc, False)
+        r = core.call(lambda: [list(x.items()) for x in load_csv(p, delimiter=d, strip_field=True)])
+        want = [rec_of(list(range(len(srows[0]))), row) for row in srows]
+    if r != ("ok", want):
+        return {"got": repr(r)[:300], "want": repr(want)[:300], "file": repr(open(p, "rb").read())[:300]}
+    return None
+
+
+def outer_clean(c):
+    """no written line starts or ends with a blank: delimiter not blank, no cell starts/ends with one"""
+    if c["d"].strip() == "":
+        return False
+    return all(x == x.strip() for row in [c["hdr"]] + c["rows"] for x in row)
+
+
+def check_strip_line_clean(c):
+    """C14_strip_line_clean: strip_line=True changes nothing on a table whose lines carry no outer blanks"""
+    load_csv = impl()[0]
+    if not outer_clean(c):
+        return None
+    bm = build_mode(c)
+    if bm is None or c["bin"]:
+        return None
+    with_header, k, _exp = bm
+    p = make_table_file(c, with_header)
+    kw = dict(k, delimiter=c["d"])
+    a = core.call(lambda: [list(x.items()) for x in load_csv(p, strip_line=True, **kw)])
+    b = core.call(lambda: [list(x.items()) for x in load_csv(p, **kw)])
+    if a != b:
+        return {"strip_line": repr(a)[:300], "plain": repr(b)[:300], "kwargs": repr(kw), "file": repr(open(p, "rb").read())[:300]}
+    return None
+
+
+def check_keep_empty_lines(c):
+    """C14_keep_empty_lines: skip_empty_lines=False — every row after the header yields a record, an
+    empty row (blank line) the record {first name: '', other names: None}; leading blank lines of a
+    file without header are still skipped"""
+    load_csv = impl()[0]
+    d, hdr, rows = c["d"], c["hdr"], c["rows"]
+    cells = lambda r: r if r else [""]
+    cc = dict(c, bin=False, trim=False)
+    if c["smode"] == "file":
+        p = make_table_file(cc, True)
+        r = core.call(lambda: [list(x.items()) for x in load_csv(p, delimiter=d, header_is_mandatory=True, skip_empty_lines=False)])
+        want = [rec_of(hdr, cells(row)) for row in rows]
+    else:
+        rest = list(rows)
+        while rest and not rest[0]:
+            rest.pop(0)
+        if not rest:
+            return None
+        p = make_table_file(cc, False)
+        r = core.call(lambda: [list(x.items()) for x in load_csv(p, delimiter=d, skip_empty_lines=False)])
+        want = [rec_of(list(range(len(rest[0]))), cells(row)) for row in rest]
+    if r != ("ok", want):
+        return {"got": repr(r)[:300], "want": repr(want)[:300], "file": repr(open(p, "rb").read())[:300]}
+    return None
+
+
+def run_reader(ctx, cases, scases, rcases):
+    """streams and evaluators for the csv.reader / load_native_csv / load_simple_csv models"""
+    from harness.props import c13
+
+    n = ctx.budget(2500, 40000)
+
+    # ---- B5: csv.reader model: written lines, soup (one line, several lines, physical lines of a text)
+    rng = ctx.rng("reader")
+    lcases = []
+    for i in range(n):
+        d = rng.choice(DELIMS)
+        k = i % 4
+        if k == 0:
+            row = c13.gen_row(rng, d)
+            eol = rng.choice(["", "\n", "\r\n"])
+            line = lib_line(row, d, eol) if rng.random() < 0.5 else writer_line(row, d, eol or "\n")
+            lines = [line]
+        else:
+            al = ["a", d, d, '"', '"', '"', " ", "\r", "\n", "x", "\r\n"]
+            text = "".join(rng.choice(al) for _ in range(rng.choice([0, 1, 2, 3, 4, 5, 6, 8, 10, 14])))
+            if k == 1:
+                lines = [text]
+            elif k == 2:
+                lines = nl_split(text)
+            else:
+                lines = [text] + ["".join(rng.choice(al) for _ in range(rng.choice([0, 1, 2, 4, 6]))) for _ in range(rng.choice([1, 2]))]
+        lcases.append({"d": d, "lines": lines})
+    ctx.correspond("csvr.reader", lcases, reader_line_of, reader_impl_of,
+                   nontrivial=lambda c: any('"' in l for l in c["lines"]))
+
+    # ---- B6: lines of a file opened with newline=''
+    fcases = [{"file": c["file"]} for c in scases[: n // 2]] + [{"file": c["file"]} for c in cases[: n // 4]]
+    ctx.correspond("csvr.nllines", fcases, lambda c: "csvr.nllines " + enc_str(c["file"]), nllines_impl)
+
+    # ---- B7: load_native_csv on table files and on soup
+    rng = ctx.rng("native")
+    ncases = []
+    for i in range(n):
+        if i % 3 != 2:
+            src = cases[i % len(cases)]
+            text, d = src["file"], src["d"]
+            if src["bin"]:
+                continue
+            first = nl_split(text[1:] if text.startswith(BOM) else text)
+            hdr = next(csv.reader(first[:1], delimiter=d), []) if first else []
+        else:
+            d = rng.choice(DELIMS)
+            al = ["a", "b", d, d, '"', " ", "\r", "\n", "\n", "\r\n", BOM, "é"]
+            text = "".join(rng.choice(al) for _ in range(rng.choice([0, 1, 2, 3, 5, 8, 12, 16])))
+            hdr = ["a", "b"]
+        c = {"d": d, "file": text, "re": rng.random() < 0.75, "ch": rng.choice(["D", "D", "T", "F", "F", "N", "1", "0", "S", "E"])}
+        r = rng.random()
+        if r < 0.35:
+            c["cn"] = None
+        elif r < 0.40:
+            c["cn"] = rng.choice(["O", "Z"])
+        elif r < 0.45:
+            c["cn"] = ["L", []]
+        elif r < 0.8 and hdr and len(set(hdr)) == len(hdr):
+            c["cn"] = [rng.choice(["L", "T"]), list(hdr)]
+        else:
+            names = rng.sample(["a", "b", "c", "id", ""], rng.randint(1, 3))
+            if rng.random() < 0.1:
+                names = names + [names[0]]
+            c["cn"] = ["L", names]
+        ncases.append(c)
+    ctx.correspond("csvr.native", ncases, native_line_of, native_impl_of, in_known=known_class,
+                   nontrivial=lambda c: c.get("cn") is not None)
+
+    # ---- B8: load_simple_csv over the cases of csvfile.load/*
+    simple_cases = [dict(c, ru=False) for c in cases[: n // 2]] + [dict(c, ru=False) for c in scases[: n // 2]]
+    ctx.correspond("csvr.simple", simple_cases, simple_line_of, simple_impl_of, in_known=known_class)
+
+    # ---- C: the statements
+    rng = ctx.rng("reader_agrees")
+    acases = []
+    for _ in range(n):
+        d = rng.choice(DELIMS)
+        via = rng.choice(["gen", "writer"])
+        row = c13.gen_row(rng, d)
+        if via == "gen" and row == [""]:
+            row = ["", ""]
+        acases.append({"d": d, "row": row, "eol": rng.choice(["", "\n", "\r\n"]) if via == "gen" else rng.choice(["\n", "\r\n"]), "via": via})
+    ctx.evaluate("reader_agrees", acases, check_reader_agrees, nontrivial=lambda c: any(('"' in f or c["d"] in f) for f in c["row"]))
+    rng = ctx.rng("reader_vs_parse")
+    vcases = []
+    for _ in range(n):
+        d = rng.choice(DELIMS)
+        al = ["a", d, d, '"', '"', '"', " ", "x"]
+        vcases.append({"d": d, "body": "".join(rng.choice(al) for _ in range(rng.choice([0, 1, 2, 3, 4, 5, 6, 8, 10]))), "eol": rng.choice(["", "\n", "\r\n", "\r"])})
+    ctx.evaluate("reader_vs_parse", vcases, check_reader_vs_parse, nontrivial=lambda c: '"' in c["body"])
+
+    rng = ctx.rng("native_agrees")
+    tcases = []
+    for i, c in enumerate(rcases):
+        tcases.append({k: c[k] for k in ("d", "hdr", "rows", "eol", "bom", "via", "trim")} | {"nmode": NATIVE_MODES[i % 4]})
+    ctx.evaluate("native_agrees", tcases, check_native_agrees, in_known=known_class, nontrivial=lambda c: bool(c["rows"]))
+
+    # load_simple_csv: tables whose cells need no quoting, every header mode, strip options too
+    rng = ctx.rng("simple_agrees")
+    qcases = []
+    for i, c in enumerate(rcases):
+        d = c["d"]
+        clean = lambda x: x.replace(d, "-").replace('"', "'")
+        hdr = [clean(x) for x in c["hdr"]]
+        if len(set(hdr)) != len(hdr):
+            continue
+        rows = [[clean(x) for x in r] for r in c["rows"]]
+        rows = [r if r != [""] else ["", ""] for r in rows]
+        if hdr == [""]:
+            continue
+        q = dict(c, hdr=hdr, rows=rows, sel=[clean(x) for x in c["sel"]], bin=False)
+        if rng.random() < 0.3:
+            q["sf"] = True
+        if rng.random() < 0.2:
+            q["sl"] = True
+        if rng.random() < 0.2:
+            q["se"] = False
+        qcases.append(q)
+    ctx.evaluate("simple_agrees", qcases, check_simple_agrees, in_known=known_class, nontrivial=lambda c: bool(c["rows"]))
+    ctx.evaluate("simple_soup", [dict(c, ru=False) for c in scases if '"' not in c["file"] and not c["bin"]][: n // 2], check_simple_soup, in_known=known_class)
+
+    rng = ctx.rng("strip")
+    pcases = []
+    for i, c in enumerate(rcases):
+        pads = [[("".join(rng.choice(BLANKS) for _ in range(rng.choice([0, 0, 1, 2])))) for _ in range(2)] for _ in range(rng.randint(1, 5))]
+        # the cells of the property: written with blanks around a core that has none at its ends
+        core_ = lambda x: x.strip()
+        hdr = [core_(x) for x in c["hdr"]]
+        if len(set(hdr)) != len(hdr):
+            continue
+        pcases.append({"d": c["d"], "hdr": hdr, "rows": [[core_(x) for x in r] for r in c["rows"]], "eol": c["eol"], "bom": c["bom"],
+                       "via": c["via"], "trim": c["trim"], "pads": pads, "smode": ("file", "pos")[i % 2]})
+    ctx.evaluate("strip_field", pcases, check_strip_field, in_known=known_class, nontrivial=lambda c: bool(c["rows"]) and any(p != ["", ""] for p in c["pads"]))
+    ctx.evaluate("keep_empty_lines", pcases, check_keep_empty_lines, in_known=known_class, nontrivial=lambda c: any(not r for r in c["rows"]))
+    ctx.evaluate("strip_line_clean", rcases[2 :: 3], check_strip_line_clean, in_known=known_class, nontrivial=lambda c: bool(c["rows"]))
 
 
 # ---------------------------------------------------------------------------
@@ -778,6 +1391,10 @@ def run(ctx):
         "binary read mode: every name (column_names, contains_header) is passed as bytes; one-byte delimiter",
         "process_field/process_line/parse_csv_line callables, other encodings and the ignored EOL argument are outside the model",
         "an empty file (no header, no rows) is refused with EOFError by an explicit branch; the no-header modes are stated for tables with at least one non-empty row",
-        "model follows the code with fix patches C14-a..e applied",
+        "model follows the code with fix patches C14-a..f applied",
+        "csv.reader: model of CPython 3.12 Modules/_csv.c parse_process_char / Reader_iternext for dialect excel + delimiter, strict=True (no escapechar, no skipinitialspace, QUOTE_MINIMAL); csv.field_size_limit() (131072) not modelled; validated by stream csvr.reader",
+        "csv.DictReader (restkey=None, restval=None, blank rows skipped, fieldnames from the first row when not given) is modelled and validated by stream csvr.native; a file opened with newline='' by stream csvr.nllines",
+        "load_simple_csv is modelled as load_csv with the split parser (loadLinesWith; Lean lemma loadLinesWith parseLine = loadLines), validated by stream csvr.simple; in binary mode it raises TypeError (str argument to bytes.rstrip)",
     ]
     ctx.extra["trusted_base"] = ["CPython open() text layer (universal newlines, utf-8-sig, tell/seek) and csv.writer: modelled, differentially validated"]
+    run_reader(ctx, cases, scases, rcases)
